@@ -1,6 +1,7 @@
 //! Shared machinery: runner (proptest driven from a binary), evidence, known findings,
 //! reference hashes, statistics helpers.
 
+pub mod alloc;
 pub mod draw;
 pub mod findings;
 pub mod refhash;
